@@ -25,7 +25,7 @@ TRUSTED_BASE = [
     "extraction: ExtrOcamlBasic + ExtrOcamlNatInt, no Extract Constant of our own; OCaml driver ocaml/api_cmd.ml",
 ]
 ASSUMPTIONS = [
-    "PARTIAL: only the modelled call vocabulary (integer variables; arithmetic, linear, reified, boolean, global constraints; fluent trees; the seven solving entry points); float variables, cumulative, int2float/floor/ceil/round, element_2d/3d, table_2d/3d, optimization/* and benchmarks/* are not exercised",
+    "PARTIAL: only the modelled call vocabulary (integer variables; arithmetic, linear, reified, boolean, global constraints; fluent trees; the seven solving entry points); float variables, cumulative, int2float/floor/ceil/round, optimization/* and benchmarks/* are not exercised (element_2d/3d, table_2d/3d, array_int_minimum/maximum, sum_iter, and_all/or_all/all_of/any_of and the array factories are)",
     "absence of panics on in-range input is established by the seeded search (both profiles) for the whole vocabulary, and by proof (no_overflow_in_range, no_oob_index) only for the arithmetic of IntLinEq/Le/Ne, the integer views and Add/Sum",
     "an `abort` (allocation failure, stack overflow) is detected as a lost output line (CRASH) — domain widths are kept below 4*10^6 values so the harness itself cannot exhaust memory",
     "out-of-range element index is read as: the index domain lies entirely outside 0..len-1 (then Err/unsat is demanded); a partially out-of-range index may be pruned and must merely not panic",
@@ -125,7 +125,55 @@ class G:
         r = self.rng
         k = r.choice(["add", "sub", "mul", "mod", "abs", "min", "max", "sum", "lin", "lin", "linr", "blin", "blinr", "reif",
                       "band", "bor", "bnot", "bxor", "implies", "clause", "alldiff", "alleq", "element", "aelement", "elementf",
-                      "table", "count", "atleast", "atmost", "exactly", "between", "gcc", "new", "new", "fn"])
+                      "table", "count", "atleast", "atmost", "exactly", "between", "gcc", "new", "new", "fn",
+                      "amin", "amax", "sumiter", "element2d", "element3d", "table2d", "table3d", "newall", "factory"])
+        if k == "factory":
+            f = r.choice(["ints2d", "ints3d", "bools", "bools2d", "bools3d"])
+            d = [r.randint(0, 2) for _ in range({"ints2d": 2, "ints3d": 3, "bools": 1, "bools2d": 2, "bools3d": 3}[f])]
+            n = 1
+            for x in d: n *= x
+            if f.startswith("ints"):
+                lo = r.randint(-3, 3); hi = lo + r.randint(-2, 3)          # reversed bounds are swapped by new_vars
+                self.emit("%s %s %d %d" % (f, " ".join(map(str, d)), lo, hi))
+                for _ in range(n): self.vars.append(('i', min(lo, hi), max(lo, hi)))
+            else:
+                self.emit("%s %s" % (f, " ".join(map(str, d))))
+                for _ in range(n): self.vars.append(('b', 0, 1))
+            return
+        if k in ("amin", "amax"):
+            self.emit("%s %s" % (k, self.xs(1, 4))); self.vars.append(('i', -100, 100)); return
+        if k == "sumiter":
+            n = r.randint(0, 4)
+            ops = [("c:%d" % r.randint(-5, 5)) for _ in range(n)] if r.random() < 0.3 else [self.x() for _ in range(n)]
+            self.emit("sumiter %s" % (",".join(ops) or "-")); self.vars.append(('i', -100, 100)); return
+        if k in ("element2d", "element3d", "table2d", "table3d"):
+            def row(w): return ",".join(self.x() for _ in range(w)) or "e"
+            def mat(rows, cols, ragged):
+                if rows == 0: return "-"
+                return "/".join(row(cols if not (ragged and r.random() < 0.4) else r.randint(0, 3)) for _ in range(rows))
+            ragged = r.random() < 0.15
+            rows, cols, dep = r.randint(0 if ragged else 1, 3), r.randint(0 if ragged else 1, 3), r.randint(1, 2)
+            def idxv(n):
+                # index variable: prefer one whose domain meets 0..n-1, otherwise declare one
+                okv = [i for i, v in enumerate(self.vars) if v[2] >= 0 and v[1] <= n - 1]
+                if okv and r.random() < 0.7: return "x%d" % r.choice(okv)
+                lo = r.randint(-1, 1); hi = max(lo, n - 1 + r.randint(-1, 1))
+                self.emit("int %d %d" % (lo, hi)); self.vars.append(('i', lo, hi)); return "x%d" % (self.n() - 1)
+            if k == "element2d":
+                self.emit("element2d %s %s %s %s" % (mat(rows, cols, ragged), idxv(max(rows, 1)), idxv(max(cols, 1)), self.x()))
+            elif k == "element3d":
+                cube = "//".join((mat(rows, cols, ragged) if rows else "E") for _ in range(dep))
+                self.emit("element3d %s %s %s %s %s" % (cube, idxv(dep), idxv(max(rows, 1)), idxv(max(cols, 1)), self.x()))
+            else:
+                nt = r.randint(0, 4); tl = r.random()
+                rowsT = [",".join(str(r.randint(-3, 6)) for _ in range(cols if tl < 0.85 else max(0, cols + r.choice([-1, 1])))) for _ in range(nt)]
+                rowsT = [x for x in rowsT if x]
+                m = mat(rows, cols, ragged) if k == "table2d" else "//".join((mat(rows, cols, ragged) if rows else "E") for _ in range(dep))
+                self.emit("%s %s %s" % (k, m, "|".join(rowsT) or "-"))
+            return
+        if k == "newall":
+            h = r.choice(["andall", "orall", "allof", "anyof"])
+            self.emit("new %s(%s)" % (h, ",".join(self.cons(0) for _ in range(r.randint(0, 3))))); return
         if k in ("add", "sub", "mul"):
             a, b = self.opnd(), self.opnd()
             if k == "mul":      # keep products in range: no operand from the large-magnitude declarations
@@ -234,7 +282,7 @@ def gen_valid(tier, rng):
     return out
 
 MAL_KINDS = ["reversed_bounds", "empty_set", "empty_minmax", "len_mismatch", "len_mismatch_reif", "zero_divisor", "zero_divisor_fluent",
-             "elem_index_oob", "elem_empty_array", "memory_budget", "memory_then_calls"]
+             "elem_index_oob", "elem_empty_array", "memory_budget", "memory_then_calls", "empty_aminmax", "elem2d_index_oob", "elem_nd_empty"]
 
 def gen_malformed_one(rng, kind):
     """a valid prefix, ONE documented invalid input of the given kind, a valid suffix, entries"""
@@ -287,6 +335,28 @@ def gen_malformed_one(rng, kind):
         else: g.emit("elementf %s %s" % (arr, idx), kind); g.vars.append(('i', -1000, 1000))
     elif kind == "elem_empty_array":
         g.emit("element - %s %s" % (g.x(), g.x()), kind)
+    elif kind == "empty_aminmax":
+        g.emit(r.choice(["amin -", "amax -"]), "empty_minmax")
+    elif kind == "elem2d_index_oob":
+        # rectangular matrix / cube, ONE index variable wholly outside its range (negative values included)
+        rows, cols, dep = r.randint(1, 3), r.randint(1, 3), r.randint(1, 2)
+        three = r.random() < 0.4
+        dims = ([dep] if three else []) + [rows, cols]
+        bad = r.randrange(len(dims))
+        idx = []
+        for j, n in enumerate(dims):
+            if j == bad:
+                if r.random() < 0.5: lo = n + r.randint(0, 3); hi = lo + r.randint(0, 2)
+                else: hi = -1 - r.randint(0, 3); lo = hi - r.randint(0, 2)
+            else: lo, hi = 0, n - 1
+            g.emit("int %d %d" % (lo, hi)); g.vars.append(('i', lo, hi)); idx.append("x%d" % (g.n() - 1))
+        m = lambda: "/".join(",".join(g.x() for _ in range(cols)) for _ in range(rows))
+        if three: g.emit("element3d %s %s %s" % ("//".join(m() for _ in range(dep)), " ".join(idx), g.x()), "elem_index_oob")
+        else: g.emit("element2d %s %s %s" % (m(), " ".join(idx), g.x()), "elem_index_oob")
+    elif kind == "elem_nd_empty":
+        t = r.random()
+        if t < 0.5: g.emit("element2d %s %s %s %s" % (r.choice(["-", "e", "e/e"]), g.x(), g.x(), g.x()), "elem_empty_array")
+        else: g.emit("element3d %s %s %s %s %s" % (r.choice(["-", "E", "e", "E//E"]), g.x(), g.x(), g.x(), g.x()), "elem_empty_array")
     elif kind == "memory_budget":
         for _ in range(r.randint(1, 4)):
             g.emit("int 0 %d" % r.choice([300000, 1000000, 2000000]), kind); g.vars.append(('i', 0, 100))
